@@ -615,6 +615,11 @@ def r11(ctx):
         sk = fn.key(r['obj'])
         for x in fn.all('CXXMemberCallExpr'):
             v = fn.nodes[x]
+            if (v.get('callee') or '').split('::')[-1] == 'insert' and fn.key(v.get('obj', -1)) == sk and v.get('args') and \
+                    fn.key(v['args'][0]) == pos:
+                n += 1
+                ctx.ob('C16.R11', fn, x, True, 'insertion in front of "#"', '%s.insert(%s, ...) keeps the marker and the level' % (sk, pos))
+                continue
             if (v.get('callee') or '').split('::')[-1] != 'substr' or fn.key(v.get('obj', -1)) != sk:
                 continue
             args = [fn.key(a) for a in v.get('args', []) if 'CXXDefaultArgExpr' not in fn.key(a)]
